@@ -126,7 +126,29 @@ func init() {
 					for _, x := range dnes {
 						gm[x.Expr] = eval.DNE
 					}
-					opts = []eval.GenExprOption{eval.GenVariables(gm)}
+					if r.Intn(3) == 0 {
+						// the option value is built first, from a map that still holds OTHER values; the caller then
+						// stores the values it evaluates with: the generator reads the map when it generates
+						early := map[string]interface{}{}
+						for kk, v := range gm {
+							switch v.(type) {
+							case bool:
+								early[kk] = !v.(bool)
+							default:
+								if v == eval.DNE {
+									early[kk] = eval.DNE
+								} else {
+									early[kk] = int64(41)
+								}
+							}
+						}
+						opts = []eval.GenExprOption{eval.GenVariables(early)}
+						for kk, v := range gm {
+							early[kk] = v
+						}
+					} else {
+						opts = []eval.GenExprOption{eval.GenVariables(gm)}
+					}
 				}
 				if enVar {
 					opts = append(opts, eval.EnableVariable)
